@@ -1121,6 +1121,17 @@ func main() {
 		sectionRace(rng.Fork("race"))
 		res.Write(args.Out)
 		return
+	} else if only == "hullrace" {
+		// development aid: the hook-parked schedules alone, C02_ROUNDS times
+		n, _ := strconv.Atoi(os.Getenv("C02_ROUNDS"))
+		if n <= 0 {
+			n = 1
+		}
+		for i := 0; i < n; i++ {
+			sectionHullRace()
+		}
+		res.Write(args.Out)
+		return
 	}
 	sectionCorpus()
 	sectionTree(rng.Fork("tree"))
